@@ -50,7 +50,7 @@ func c02TailForgery(c *Ctx, up *world.Upstream) {
 						PreferredUsername: "tail-" + strings.Repeat("p", pad) + "-user"}
 					rec := httptest.NewRecorder()
 					req, _ := (&world.Req{Method: "GET", Target: "/", Host: "app.example.com"}).Parse()
-					if err := px.P.sessionStore.Save(rec, req, sess); err != nil {
+					if err := verifSessionStore(px.P).Save(rec, req, sess); err != nil {
 						c.Error("C02 forgery: save: %v", err)
 						return
 					}
@@ -143,14 +143,14 @@ func c02TailForgery(c *Ctx, up *world.Upstream) {
 						ohdr = append(ohdr, fmt.Sprintf("%s_%d=%s", name, p.idx, p.val))
 					}
 					req0, _ := (&world.Req{Method: "GET", Target: "/", Host: "app.example.com", Headers: [][2]string{{"Cookie", strings.Join(ohdr, "; ")}}}).Parse()
-					if s0, err := px.P.sessionStore.Load(req0); err != nil || s0 == nil || s0.PreferredUsername != sess.PreferredUsername {
+					if s0, err := verifSessionStore(px.P).Load(req0); err != nil || s0 == nil || s0.PreferredUsername != sess.PreferredUsername {
 						c.Error("C02 forgery: control load failed: %v", err)
 						return
 					}
 					c.Inc("evaluations")
 					c.Inc("crafted_tail_forgeries_tried")
 					c.Distinct("distinct_nontrivial", fmt.Sprintf("forgery|%d|%s|%d|%d", si, expire, tsz, pad))
-					got, lerr := px.P.sessionStore.Load(req2)
+					got, lerr := verifSessionStore(px.P).Load(req2)
 					cs := map[string]any{"kind": "crafted-tail-forgery", "secret": si, "cookie_expire": expire, "parts": len(parts), "value_len": len(joined),
 						"issued_preferred_username": sess.PreferredUsername}
 					if lerr == nil && got != nil {
